@@ -42,6 +42,8 @@ type task struct {
 	last    string
 	killed  bool
 	panicked string
+	depth    int32
+	gateAll  bool // also gate GETs to replicas (the controller-side poll loop of a clone start)
 }
 
 type agentProc struct {
@@ -57,7 +59,7 @@ var reqDepth int32
 
 func installHooks() {
 	inject.UpdateLUNMapHook = func() {
-		if cl := curr; cl != nil && cl.task != nil && cl.task.running {
+		if cl := curr; cl != nil && cl.cur != nil && cl.cur.running {
 			cl.gate("window inside UpdateLUNMap (map preloaded, server unlocked)")
 		}
 	}
@@ -72,7 +74,7 @@ func installHooks() {
 
 // gate parks the task goroutine until the explorer releases it.
 func (cl *cluster) gate(desc string) {
-	t := cl.task
+	t := cl.cur
 	t.gates++
 	t.last = desc
 	t.running = false
@@ -91,6 +93,9 @@ func gated(req *http.Request) bool {
 	if req.Method != "GET" {
 		return true
 	}
+	if cl := curr; cl != nil && cl.cur != nil && cl.cur.gateAll {
+		return true
+	}
 	// reads of the controller's view steer the task; polling GETs of replicas and agents do not need a gate
 	return strings.HasPrefix(req.URL.Host, ctlHost)
 }
@@ -101,6 +106,11 @@ func (cl *cluster) routeExtra(req *http.Request) (*http.Response, bool) {
 	port := ""
 	if p := strings.Split(req.URL.Host, ":"); len(p) > 1 {
 		port = p[1]
+	}
+	if host == ctlHostB && cl.ctlRouterB != nil {
+		rec := httptest.NewRecorder()
+		cl.ctlRouterB.ServeHTTP(rec, req)
+		return rec.Result(), true
 	}
 	if host == ctlHost {
 		if cl.ctlRouter == nil {
@@ -254,9 +264,13 @@ func transferFile(src, dst string) error {
 }
 
 // startTask launches a replica-side procedure and runs it to its first gate.
-func (cl *cluster) startTask(kind string, node int, body func() error) {
-	t := &task{kind: kind, node: node, release: make(chan struct{}), report: make(chan string, 1), running: true}
-	cl.task = t
+func (cl *cluster) startTask(kind string, node int, body func() error) *task {
+	return cl.startTaskOpt(kind, node, false, body)
+}
+
+func (cl *cluster) startTaskOpt(kind string, node int, gateAll bool, body func() error) *task {
+	t := &task{kind: kind, node: node, release: make(chan struct{}), report: make(chan string, 1), running: true, gateAll: gateAll}
+	cl.cur = t
 	go func() {
 		defer func() {
 			if r := recover(); r != nil {
@@ -277,11 +291,11 @@ func (cl *cluster) startTask(kind string, node int, body func() error) {
 		t.err = body()
 		t.report <- "done"
 	}()
-	cl.awaitTask()
+	cl.awaitTask(t)
+	return t
 }
 
-func (cl *cluster) awaitTask() {
-	t := cl.task
+func (cl *cluster) awaitTask(t *task) {
 	select {
 	case r := <-t.report:
 		t.running = false
@@ -292,32 +306,34 @@ func (cl *cluster) awaitTask() {
 		cl.violate("wedged", "task-wedged", fmt.Sprintf("%s task of node %d neither reached a gate nor finished within 30 s (last gate: %s)", t.kind, t.node, t.last))
 		t.done = true
 	}
+	cl.cur = nil
 	cl.settle()
 }
 
-func (cl *cluster) stepTask() {
-	t := cl.task
+func (cl *cluster) stepTask(t *task) {
 	if t == nil || t.done {
 		return
 	}
 	t.running = true
+	cl.cur = t
 	t.release <- struct{}{}
-	cl.awaitTask()
+	cl.awaitTask(t)
 }
 
 // killTask: the replica process that runs the task dies (its goroutine unwinds at the gate it is parked at).
-func (cl *cluster) killTask() {
-	t := cl.task
+func (cl *cluster) killTask(t *task) {
 	if t == nil || t.done {
 		return
 	}
 	t.killed = true
+	cl.cur = t
 	t.release <- struct{}{}
-	cl.awaitTask()
+	cl.awaitTask(t)
 }
 
-func (cl *cluster) taskDesc() string {
-	t := cl.task
+func (cl *cluster) taskDesc() string { return descTask(cl.task) + " | " + descTask(cl.taskX) }
+
+func descTask(t *task) string {
 	if t == nil {
 		return "none"
 	}
